@@ -49,6 +49,13 @@ pub struct Analysis {
     db: salsa::Snapshot<RootDatabase>,
 }
 
+#[cfg(feature = "verif")]
+impl Drop for Analysis {
+    fn drop(&mut self) {
+        crate::verif::snapshot_dropped();
+    }
+}
+
 impl Analysis {
     pub fn line_index(&self, file_id: FileId) -> Arc<LineIndex> {
         self.db.line_index(file_id)
